@@ -261,3 +261,1301 @@ Proof.
 Qed.
 
 End NoPanic.
+
+(* ------------------------------------------------------------------------------------ *)
+(** * 2. Reader algebra *)
+
+From Ztyp Require BitfieldsProofs.
+
+Lemma two32_eq : two32 = 2 ^ 32.
+Proof. reflexivity. Qed.
+Lemma two32_lt_two64 : two32 < two64.
+Proof. rewrite two32_eq, two64_eq. apply N.pow_lt_mono_r; lia. Qed.
+Lemma two32_val : two32 = 4294967296.
+Proof. reflexivity. Qed.
+
+(* the chain of limit counters of a reader: distinct, existing counters *)
+Definition chain_ok (st : rstate) (chain : list nat) : Prop :=
+  NoDup chain /\ Forall (fun j => (j < length (r_lims st))%nat) chain.
+
+(* reader invariant: valid chain, index within the scope, scope below 2^32 *)
+Definition rinv (st : rstate) (d : dreader) : Prop :=
+  chain_ok st (d_chain d) /\ d_i d <= d_max d /\ d_max d < two32.
+
+(* [adv st chain k st']: from [st] to [st'] exactly [k] bytes were taken from the stream
+   through the limit counters of [chain]: the stream lost its first k bytes, every counter of
+   the chain went down by k, the other existing counters are untouched (new counters may
+   have been added by sub-scopes) *)
+Definition adv (st : rstate) (chain : list nat) (k : N) (st' : rstate) : Prop :=
+  r_stream st' = skipn (nat_of k) (r_stream st) /\
+  (length (r_lims st) <= length (r_lims st'))%nat /\
+  forall j, (j < length (r_lims st))%nat ->
+    (In j chain -> lim_get st' j = lim_get st j - k) /\
+    (~ In j chain -> lim_get st' j = lim_get st j).
+
+Lemma adv_refl st chain : adv st chain 0 st.
+Proof.
+  split; [reflexivity|]. split; [lia|]. intros j Hj. split; intros _; [lia|reflexivity].
+Qed.
+
+Lemma adv_trans st chain a st1 b st2 :
+  adv st chain a st1 -> adv st1 chain b st2 -> adv st chain (a + b) st2.
+Proof.
+  intros (S1 & L1 & C1) (S2 & L2 & C2). repeat split.
+  - rewrite S2, S1. unfold nat_of. rewrite N2Nat.inj_add, BitfieldsProofs.skipn_add. reflexivity.
+  - lia.
+  - intros Hin. destruct (C1 j H) as [C1a _]. destruct (C2 j ltac:(lia)) as [C2a _].
+    rewrite (C2a Hin), (C1a Hin). lia.
+  - intros Hin. destruct (C1 j H) as [_ C1b]. destruct (C2 j ltac:(lia)) as [_ C2b].
+    rewrite (C2b Hin), (C1b Hin). reflexivity.
+Qed.
+
+Lemma adv_eq st chain a b st' : a = b -> adv st chain a st' -> adv st chain b st'.
+Proof. intros ->. exact (fun H => H). Qed.
+
+Lemma chain_ok_adv st chain c k st' : chain_ok st chain -> adv st c k st' -> chain_ok st' chain.
+Proof.
+  intros [Hnd HF] (_ & L & _). split; [exact Hnd|].
+  eapply Forall_impl; [|exact HF]. cbv beta. intros j Hj. lia.
+Qed.
+
+Lemma lenN_skipn' {A} (l : list A) k : lenN (skipn (nat_of k) l) = lenN l - k.
+Proof. rewrite lenN_skipn. unfold nat_of. rewrite N2Nat.id. reflexivity. Qed.
+
+Lemma lenN_firstn' {A} (l : list A) k : lenN (firstn (nat_of k) l) = N.min k (lenN l).
+Proof. rewrite lenN_firstn. unfold nat_of. rewrite N2Nat.id. reflexivity. Qed.
+
+Lemma avail_le_stream st chain : avail st chain <= lenN (r_stream st).
+Proof.
+  unfold avail. induction chain as [|j c IH]; cbn [fold_right]; [unfold lenN; lia|]. lia.
+Qed.
+
+Lemma avail_adv st chain k st' :
+  Forall (fun j => (j < length (r_lims st))%nat) chain ->
+  adv st chain k st' -> avail st' chain = avail st chain - k.
+Proof.
+  intros HF (S & L & C). unfold avail.
+  assert (Hin : forall j, In j chain -> In j chain) by auto.
+  revert HF Hin. generalize chain at 1 2 4 5. intros c.
+  induction c as [|j c IH]; intros HF Hin; cbn [fold_right].
+  - rewrite S. fold (lenN (skipn (nat_of k) (r_stream st))). rewrite lenN_skipn'. reflexivity.
+  - rewrite IH.
+    + destruct (C j (Forall_inv HF)) as [Cj _]. rewrite (Cj (Hin j (or_introl eq_refl))). lia.
+    + exact (Forall_inv_tail HF).
+    + intros x Hx. apply Hin. right. exact Hx.
+Qed.
+
+(* the counters after [consume] *)
+Definition dec_lims (lims : list N) (chain : list nat) (k : N) : list N :=
+  fold_right (fun idx ls => list_set ls idx (nth idx ls 0 - k)) lims chain.
+
+Lemma dec_lims_length lims k : forall chain, length (dec_lims lims chain k) = length lims.
+Proof.
+  induction chain as [|j c IH]; cbn [dec_lims fold_right]; [reflexivity|].
+  fold (dec_lims lims c k). rewrite BitfieldsProofs.list_set_length. exact IH.
+Qed.
+
+Lemma dec_lims_nth lims k : forall chain,
+  NoDup chain -> Forall (fun j => (j < length lims)%nat) chain ->
+  forall j, (In j chain -> nth j (dec_lims lims chain k) 0 = nth j lims 0 - k) /\
+            (~ In j chain -> nth j (dec_lims lims chain k) 0 = nth j lims 0).
+Proof.
+  induction chain as [|i c IH]; intros Hnd HF j.
+  - split; [intros []|reflexivity].
+  - cbn [dec_lims fold_right]. fold (dec_lims lims c k).
+    pose proof (NoDup_cons_iff i c) as [Hnd' _]. destruct (Hnd' Hnd) as [Hni Hndc].
+    specialize (IH Hndc (Forall_inv_tail HF)).
+    rewrite BitfieldsProofs.nth_list_set by (rewrite dec_lims_length; exact (Forall_inv HF)).
+    destruct (Nat.eqb_spec j i) as [->|Hne].
+    + split; [intros _|intros Hn; exfalso; apply Hn; left; reflexivity].
+      destruct (IH i) as [_ IHb]. rewrite (IHb Hni). reflexivity.
+    + destruct (IH j) as [IHa IHb]. split.
+      * intros [E|Hin]; [congruence|]. apply IHa, Hin.
+      * intros Hn. apply IHb. intros Hin. apply Hn. right. exact Hin.
+Qed.
+
+Lemma adv_consume st chain k : chain_ok st chain -> adv st chain k (consume st chain k).
+Proof.
+  intros [Hnd HF]. unfold consume. fold (dec_lims (r_lims st) chain k).
+  repeat split; cbn [r_stream r_lims]; unfold lim_get; cbn [r_lims].
+  - rewrite dec_lims_length. lia.
+  - apply (dec_lims_nth (r_lims st) k chain Hnd HF j).
+  - apply (dec_lims_nth (r_lims st) k chain Hnd HF j).
+Qed.
+
+(* ---- dr_read ---- *)
+Lemma dr_read_fwd st d k bs st' d' : rinv st d -> dr_read st d k = OK (bs, st', d') ->
+  k <= dr_scope d /\ k <= avail st (d_chain d) /\ bs = firstn (nat_of k) (r_stream st) /\
+  adv st (d_chain d) k st' /\
+  d_chain d' = d_chain d /\ d_max d' = d_max d /\ d_i d' = d_i d + k.
+Proof.
+  intros (Hc & Hi & Hm) H. unfold dr_read in H. unfold dr_scope.
+  destruct (N.eqb_spec k 0) as [->|Hk].
+  - inversion H; subst. split; [lia|]. split; [lia|]. split; [reflexivity|].
+    split; [apply adv_refl|]. repeat split; lia.
+  - destruct (_ <? k); [discriminate H|].
+    destruct (N.ltb_spec (d_max d) (d_i d + k)); [discriminate H|].
+    destruct (N.ltb_spec (avail st (d_chain d)) k); [discriminate H|].
+    inversion H; subst; cbn [d_chain d_max d_i]. split; [lia|]. split; [lia|].
+    split; [reflexivity|]. split; [apply adv_consume, Hc|]. repeat split; lia.
+Qed.
+
+Lemma dr_read_bwd st d k : rinv st d -> k <= dr_scope d -> k <= avail st (d_chain d) ->
+  exists st' d', dr_read st d k = OK (firstn (nat_of k) (r_stream st), st', d').
+Proof.
+  intros (Hc & Hi & Hm) Hs Ha. unfold dr_read. unfold dr_scope in Hs.
+  pose proof two32_lt_two64 as H32.
+  destruct (N.eqb_spec k 0) as [->|Hk]; [do 2 eexists; reflexivity|].
+  destruct (N.ltb_spec (two64 - 1 - d_i d) k); [lia|].
+  destruct (N.ltb_spec (d_max d) (d_i d + k)); [lia|].
+  destruct (N.ltb_spec (avail st (d_chain d)) k); [lia|].
+  do 2 eexists; reflexivity.
+Qed.
+
+Lemma rinv_read st d k st' d' : rinv st d -> k <= dr_scope d -> adv st (d_chain d) k st' ->
+  d_chain d' = d_chain d -> d_max d' = d_max d -> d_i d' = d_i d + k ->
+  rinv st' d' /\ dr_scope d' = dr_scope d - k.
+Proof.
+  intros (Hc & Hi & Hm) Hk Ha E1 E2 E3. unfold rinv, dr_scope in *. rewrite E1, E2, E3.
+  split; [split; [eapply chain_ok_adv; eassumption|split; lia]|lia].
+Qed.
+
+(* ---- dr_sub_scope ---- *)
+Definition sub_st (st : rstate) (count : N) : rstate :=
+  mkRS (r_stream st) (r_lims st ++ [count]).
+Definition sub_d (st : rstate) (d : dreader) (count : N) : dreader :=
+  mkDR 0 count (length (r_lims st) :: d_chain d).
+
+Lemma dr_sub_scope_inv st d count st1 sd : dr_sub_scope st d count = OK (st1, sd) ->
+  count <= dr_scope d /\
+  st1 = sub_st st count /\ sd = sub_d st d count.
+Proof.
+  unfold dr_sub_scope. destruct (N.ltb_spec (dr_scope d) count) as [Hlt|Hge]; [discriminate|].
+  intros HH. inversion HH. repeat split. exact Hge.
+Qed.
+
+Lemma dr_sub_scope_ok st d count : count <= dr_scope d ->
+  dr_sub_scope st d count = OK (sub_st st count, sub_d st d count).
+Proof.
+  intros H. unfold dr_sub_scope. destruct (N.ltb_spec (dr_scope d) count); [lia|reflexivity].
+Qed.
+
+Section SubScope.
+Variables (st : rstate) (d : dreader) (count : N).
+Notation st1 := (sub_st st count).
+Notation sd := (sub_d st d count).
+
+Lemma lim_get_sub_old j : (j < length (r_lims st))%nat -> lim_get st1 j = lim_get st j.
+Proof. intros Hj. unfold lim_get, sub_st. cbn [r_lims]. apply app_nth1. exact Hj. Qed.
+
+Lemma lim_get_sub_new : lim_get st1 (length (r_lims st)) = count.
+Proof. unfold lim_get, sub_st. cbn [r_lims]. rewrite app_nth2, Nat.sub_diag by lia. reflexivity. Qed.
+
+Lemma rinv_sub : rinv st d -> count <= dr_scope d -> rinv st1 sd /\ dr_scope sd = count.
+Proof.
+  intros ((Hnd & HF) & Hi & Hm) Hc. unfold rinv, chain_ok, dr_scope, sub_st, sub_d in *.
+  cbn [d_chain d_i d_max r_lims]. rewrite app_length. cbn [length].
+  repeat split; try lia.
+  - constructor; [|exact Hnd]. intros Hin. rewrite Forall_forall in HF. specialize (HF _ Hin). lia.
+  - constructor; [lia|]. eapply Forall_impl; [|exact HF]. cbv beta. intros; lia.
+Qed.
+
+Lemma avail_sub : rinv st d ->
+  avail st1 (d_chain sd) = N.min count (avail st (d_chain d)).
+Proof.
+  intros ((Hnd & HF) & _). unfold sub_d. cbn [d_chain]. unfold avail at 1. cbn [fold_right].
+  rewrite lim_get_sub_new. f_equal. fold (avail st1 (d_chain d)). unfold avail.
+  clear Hnd. induction HF as [|j c Hj _ IH]; cbn [fold_right]; [reflexivity|].
+  rewrite IH, lim_get_sub_old by exact Hj. reflexivity.
+Qed.
+
+Lemma adv_sub k st2 : rinv st d -> adv st1 (d_chain sd) k st2 -> adv st (d_chain d) k st2.
+Proof.
+  intros ((Hnd & HF) & _) (S & L & C). unfold sub_d, sub_st in S, L, C.
+  cbn [r_stream r_lims d_chain] in *.
+  rewrite app_length in L. cbn [length] in L. split; [exact S|]. split; [lia|].
+  intros j Hj. split.
+  - intros Hin. destruct (C j) as [Ca _]; [rewrite app_length; cbn [length]; lia|].
+    rewrite Ca by (right; exact Hin). f_equal. apply lim_get_sub_old. exact Hj.
+  - intros Hin. destruct (C j) as [_ Cb]; [rewrite app_length; cbn [length]; lia|].
+    rewrite Cb; [apply lim_get_sub_old; exact Hj|].
+    intros [E|Hin']; [lia|contradiction].
+Qed.
+End SubScope.
+
+(* the parent's invariant survives whatever happened below *)
+Lemma rinv_adv st d c k st' : rinv st d -> adv st c k st' -> rinv st' d.
+Proof.
+  intros (Hc & Hi & Hm) Ha. split; [|split; assumption]. eapply chain_ok_adv; eassumption.
+Qed.
+
+(* slices *)
+Lemma firstn_firstn_le {A} (l : list A) a b : (a <= b)%nat -> firstn a (firstn b l) = firstn a l.
+Proof. intros H. rewrite firstn_firstn. f_equal. lia. Qed.
+
+Lemma skipn_firstn_sub {A} (l : list A) a b :
+  skipn a (firstn b l) = firstn (b - a) (skipn a l).
+Proof. apply skipn_firstn_comm. Qed.
+
+Lemma firstnN_firstnN {A} (l : list A) a b : a <= b ->
+  firstn (nat_of a) (firstn (nat_of b) l) = firstn (nat_of a) l.
+Proof. intros H. apply firstn_firstn_le. unfold nat_of. lia. Qed.
+
+Lemma skipnN_firstnN {A} (l : list A) a b :
+  skipn (nat_of a) (firstn (nat_of b) l) = firstn (nat_of (b - a)) (skipn (nat_of a) l).
+Proof. rewrite skipn_firstn_sub. f_equal. unfold nat_of. lia. Qed.
+
+(* ------------------------------------------------------------------------------------ *)
+(** * 3. The slice decoder
+
+   [sdec t bs] decodes EXACTLY the byte string [bs] as a value of type [t].  It performs the
+   checks of [view_deser] in the same order, but on plain slices ([firstn]/[skipn]) instead of
+   reader states, and with exact arithmetic for the sizes of variable-size parts (a part
+   that does not fit in the remaining bytes is rejected). *)
+
+Definition sdecoder := list byte -> option node.
+Definition r2o {A} (r : res A) : option A := match r with OK a => Some a | _ => None end.
+Definition obind {A B} (o : option A) (f : A -> option B) : option B :=
+  match o with Some a => f a | None => None end.
+Notation "'odo' x <- r ; k" := (obind r (fun x => k))
+  (at level 200, x pattern, r at level 100, k at level 200, right associativity).
+
+(* [count] elements of [size] bytes each from the front of [bs] *)
+Fixpoint s_fixed_series (dec : sdecoder) (count : nat) (size : N) (bs : list byte)
+  : option (list node) :=
+  match count with
+  | O => Some []
+  | S k =>
+    if lenN bs <? size then None else
+    odo n <- dec (firstn (nat_of size) bs);
+    odo ns <- s_fixed_series dec k size (skipn (nat_of size) bs);
+    Some (n :: ns)
+  end.
+
+(* [count] little-endian uint32 offsets, non-decreasing from [prev]; returns the rest *)
+Fixpoint s_offsets (count : nat) (prev : N) (bs : list byte) : option (list N * list byte) :=
+  match count with
+  | O => Some ([], bs)
+  | S k =>
+    if lenN bs <? 4 then None else
+    let off := le_val (firstn 4 bs) in
+    if off <? prev then None else
+    odo r <- s_offsets k off (skipn 4 bs); let '(offs, rest) := r in
+    Some (off :: offs, rest)
+  end.
+
+(* elements between consecutive offsets; [bs] starts at the first offset; the last element
+   ends at [scope] *)
+Fixpoint s_var_elems (dec : sdecoder) (offs : list N) (scope : N) (bs : list byte)
+  : option (list node) :=
+  match offs with
+  | [] => Some []
+  | o :: rest =>
+    let size := match rest with o' :: _ => o' - o | [] => scope - o end in
+    if (match rest with _ :: _ => false | [] => scope <? o end) then None else
+    if lenN bs <? size then None else
+    odo n <- dec (firstn (nat_of size) bs);
+    odo ns <- s_var_elems dec rest scope (skipn (nat_of size) bs);
+    Some (n :: ns)
+  end.
+
+Fixpoint s_cont_fixed (fs : list (tinfo * sdecoder)) (first : bool) (fixed_part : N)
+         (prev scope : N) (bs : list byte) : option (list cfield * list byte) :=
+  match fs with
+  | [] => Some ([], bs)
+  | (i, dec) :: rest =>
+    if ti_fixed i then
+      if lenN bs <? ti_size i then None else
+      odo n <- dec (firstn (nat_of (ti_size i)) bs);
+      odo more <- s_cont_fixed rest first fixed_part prev scope (skipn (nat_of (ti_size i)) bs);
+      let '(cs, bs') := more in Some (CFixed n :: cs, bs')
+    else
+      if lenN bs <? 4 then None else
+      let off := le_val (firstn 4 bs) in
+      if off <? prev then None else
+      if scope <? off then None else
+      if first && negb (off =? fixed_part) then None else
+      odo more <- s_cont_fixed rest false fixed_part off scope (skipn 4 bs);
+      let '(cs, bs') := more in Some (CVar off :: cs, bs')
+  end.
+
+(* the next offset in a list of container fields *)
+Section CfNext.
+Context {D : Type}.
+Fixpoint cf_next (l : list (cfield * D)) : option N :=
+  match l with
+  | [] => None
+  | (CVar o, _) :: _ => Some o
+  | _ :: l' => cf_next l'
+  end.
+End CfNext.
+
+Fixpoint s_cont_var (fs : list (cfield * sdecoder)) (scope : N) (bs : list byte)
+  : option (list node) :=
+  match fs with
+  | [] => Some []
+  | (CFixed n, _) :: rest => odo ns <- s_cont_var rest scope bs; Some (n :: ns)
+  | (CVar off, dec) :: rest =>
+    let size := match cf_next rest with Some o' => o' - off | None => scope - off end in
+    if lenN bs <? size then None else
+    odo n <- dec (firstn (nat_of size) bs);
+    odo ns <- s_cont_var rest scope (skipn (nat_of size) bs);
+    Some (n :: ns)
+  end.
+
+Section Sdec.
+Variable zh : nat -> chunk.
+
+Fixpoint sdec (t : ty) (bs : list byte) {struct t} : option node :=
+  let scope := lenN bs in
+  match t with
+  | TUint w =>
+    if uint_width_ok w then (if scope =? w then Some (Leaf (pad32 bs)) else None) else None
+  | TBool =>
+    if negb (scope =? 1) then None else
+    let b := le_val bs in
+    if 1 <? b then None else Some (Leaf (if b =? 1 then true_chunk else zh 0))
+  | TBytes n => if scope =? n then Some (Leaf (pad32 bs)) else None
+  | TRoot => if scope =? 32 then Some (Leaf (pad32 bs)) else None
+  | TBitvector n =>
+    if negb (ti_size (info t) =? scope) then None else
+    if negb (scope =? 0) && negb (N.land n 7 =? 0)
+       && negb (N.land (N_of_byte (last bs b0)) (2 ^ (N.land n 7) - 1) =? N_of_byte (last bs b0))
+    then None else
+    r2o (fill_contents zh (map Leaf (chunkify bs)) t)
+  | TBitlist n =>
+    if scope =? 0 then None else
+    if ti_max (info t) <? scope then None else
+    let lastb := N_of_byte (last bs b0) in
+    if lastb =? 0 then None else
+    if (scope =? 1) && (lastb =? 1) then r2o (default_node zh t) else
+    let dbi := byte_bit_index_N lastb in
+    let bit_len := wrap64 (N.shiftl (scope - 1) 3) + dbi in
+    if n <? bit_len then None else
+    let contents :=
+        if dbi =? 0 then removelast bs
+        else removelast bs ++ [byte_of_N (N.lxor lastb (2 ^ dbi))] in
+    odo c <- r2o (fill_contents zh (map Leaf (chunkify contents)) t);
+    Some (Pair c (len_leaf bit_len))
+  | TVector e n =>
+    let ie := info e in
+    if is_basic_elem e then
+      if negb (ti_size (info t) =? scope) then None else
+      r2o (fill_contents zh (map Leaf (chunkify bs)) t)
+    else if ti_fixed ie then
+      if negb (ti_size (info t) =? scope) then None else
+      odo ns <- s_fixed_series (sdec e) (nat_of n) (ti_size ie) bs;
+      r2o (fill_contents zh ns t)
+    else
+      odo r <- s_offsets (nat_of n) 0 bs; let '(offs, rest) := r in
+      if negb (hd 0 offs =? mul64 n 4) then None else
+      odo ns <- s_var_elems (sdec e) offs scope rest;
+      r2o (fill_contents zh ns t)
+  | TList e n =>
+    let ie := info e in
+    if is_basic_elem e then
+      let esz := ti_size ie in
+      let len := scope / esz in
+      if n <? len then None else
+      if negb (mul64 len esz =? scope) then None else
+      if len =? 0 then r2o (default_node zh t) else
+      odo c <- r2o (fill_contents zh (map Leaf (chunkify bs)) t);
+      Some (Pair c (len_leaf len))
+    else if scope =? 0 then r2o (default_node zh t)
+    else if ti_fixed ie then
+      let esz := ti_size ie in
+      let len := scope / esz in
+      if n <? len then None else
+      if negb (mul64 len esz =? scope) then None else
+      odo ns <- s_fixed_series (sdec e) (nat_of len) esz bs;
+      odo c <- r2o (fill_contents zh ns t);
+      Some (Pair c (len_leaf len))
+    else
+      if scope <? 4 then None else
+      let first := le_val (firstn 4 bs) in
+      if negb (first mod 4 =? 0) then None else
+      let len := first / 4 in
+      if n <? len then None else
+      if (first =? 0) || (scope <? first) then None else
+      odo r <- s_offsets (nat_of (len - 1)) first (skipn 4 bs); let '(offs, rest) := r in
+      odo ns <- s_var_elems (sdec e) (first :: offs) scope rest;
+      odo c <- r2o (fill_contents zh ns t);
+      Some (Pair c (len_leaf len))
+  | TContainer fs =>
+    let it := info t in
+    if (scope <? ti_min it) || (ti_max it <? scope) then None else
+    let fds := combine (map info fs) (map sdec fs) in
+    let fp := fixed_part_size fs in
+    odo r <- s_cont_fixed fds true fp (wrap32 fp) scope bs; let '(cfs, rest) := r in
+    odo ns <- s_cont_var (combine cfs (map sdec fs)) scope rest;
+    r2o (fill_contents zh ns t)
+  | TUnion none opts =>
+    if scope =? 0 then None else
+    let sel := le_val (firstn 1 bs) in
+    if wrap8 (union_count none opts) <=? sel then None else
+    if none && (sel =? 0) then
+      if negb (scope =? 1) then None else
+      Some (Pair (Leaf zero_chunk) (Leaf (pad32 [byte_of_N sel])))
+    else
+      (fix pick (os : list ty) (k : nat) : option node :=
+         match os, k with
+         | [], _ => None
+         | o :: _, O =>
+           if ti_fixed (info o) && negb (ti_size (info o) =? scope - 1) then None else
+           odo c <- sdec o (skipn 1 bs);
+           Some (Pair c (Leaf (pad32 [byte_of_N sel])))
+         | _ :: os', S k' => pick os' k'
+         end) opts (nat_of (if none then sel - 1 else sel))
+  end.
+
+End Sdec.
+
+(* sanity: the slice decoder agrees with the reader-based decoder on samples *)
+Definition test_zh (d : nat) : chunk := repeat (byte_of_N (N.of_nat d)) 32.
+Definition test_ty : ty :=
+  TContainer [TUint 2; TList (TUint 1) 10; TVector (TList TBool 3) 2; TBitlist 9;
+              TUnion true [TUint 1; TBitvector 3]; TVector (TBytes 2) 2].
+Definition test_val : val :=
+  VCont [VUint 513; VSeq [VUint 7; VUint 8]; VSeq [VSeq [VBool true]; VSeq []];
+         VBits [true; false; true]; VUnion 2 (Some (VBits [true; true; false]));
+         VSeq [VBytes [byte_of_N 1; byte_of_N 2]; VBytes [byte_of_N 3; byte_of_N 4]]].
+Example test_sdec_agrees :
+  let bs := spec_ser test_ty test_val in
+  r2o (view_deserialize test_zh test_ty bs) = sdec test_zh test_ty bs /\
+  is_ok (view_deserialize test_zh test_ty bs) = true /\
+  r2o (view_deserialize test_zh test_ty (bs ++ [b0])) = sdec test_zh test_ty (bs ++ [b0]) /\
+  r2o (view_deserialize test_zh test_ty (removelast bs)) = sdec test_zh test_ty (removelast bs).
+Proof. vm_compute. repeat split. Qed.
+
+(* ------------------------------------------------------------------------------------ *)
+(** * 4. Simulation: the reader-based decoder and the slice decoder *)
+
+(* single-chunk leaf types are handed exactly their size *)
+Definition leaf_ok (t : ty) (scope : N) : Prop :=
+  match t with
+  | TUint w => scope = w
+  | TBool => scope = 1
+  | TBytes n => scope = n
+  | TRoot => scope = 32
+  | _ => True
+  end.
+
+Lemma leaf_ok_fixed t : ti_fixed (info t) = true -> leaf_ok t (ti_size (info t)).
+Proof. destruct t; intros _; cbn [leaf_ok info ti_size]; auto. Qed.
+
+Lemma leaf_ok_var t s : ti_fixed (info t) = false -> leaf_ok t s.
+Proof. destruct t; cbn [leaf_ok info ti_fixed]; intros H; try discriminate H; auto. Qed.
+
+(* the next k bytes of the stream *)
+Definition slice (st : rstate) (k : N) : list byte := firstn (nat_of k) (r_stream st).
+
+Lemma slice_len st c k : k <= avail st c -> lenN (slice st k) = k.
+Proof.
+  intros H. unfold slice. rewrite lenN_firstn'. pose proof (avail_le_stream st c). lia.
+Qed.
+
+Lemma slice_len_ge st c k X : k <= avail st c -> k <= X -> k <= lenN (slice st X).
+Proof.
+  intros H HX. unfold slice. rewrite lenN_firstn'. pose proof (avail_le_stream st c). lia.
+Qed.
+
+Lemma slice_firstn st a b : a <= b -> firstn (nat_of a) (slice st b) = slice st a.
+Proof. intros H. unfold slice. apply firstnN_firstnN. exact H. Qed.
+
+Lemma slice_skipn st c a st2 b : adv st c a st2 ->
+  skipn (nat_of a) (slice st b) = slice st2 (b - a).
+Proof. intros (S & _). unfold slice. rewrite skipnN_firstnN, S. reflexivity. Qed.
+
+Lemma slice_0 st : slice st 0 = [].
+Proof. reflexivity. Qed.
+
+Definition dec_fwd (dec : decoder) (sd : sdecoder) (ok : N -> Prop) : Prop :=
+  forall st d n st', rinv st d -> ok (dr_scope d) -> dec st d = OK (n, st') ->
+    dr_scope d <= avail st (d_chain d) /\ adv st (d_chain d) (dr_scope d) st' /\
+    sd (slice st (dr_scope d)) = Some n.
+
+Definition dec_bwd (dec : decoder) (sd : sdecoder) (ok : N -> Prop) : Prop :=
+  forall st d n, rinv st d -> ok (dr_scope d) -> dr_scope d <= avail st (d_chain d) ->
+    sd (slice st (dr_scope d)) = Some n -> exists st', dec st d = OK (n, st').
+
+Definition dec_sim dec sd ok : Prop := dec_fwd dec sd ok /\ dec_bwd dec sd ok.
+
+(* a child decoder run in SubScope(size) *)
+Lemma child_fwd dec sd ok st d size st1 sdr n st2 :
+  dec_fwd dec sd ok -> rinv st d -> ok size ->
+  dr_sub_scope st d size = OK (st1, sdr) -> dec st1 sdr = OK (n, st2) ->
+  size <= dr_scope d /\ size <= avail st (d_chain d) /\ adv st (d_chain d) size st2 /\
+  sd (slice st size) = Some n.
+Proof.
+  intros Hf Hinv Hok Hs Hd. apply dr_sub_scope_inv in Hs. destruct Hs as (Hle & -> & ->).
+  destruct (rinv_sub st d size Hinv Hle) as [Hinv1 Hsc].
+  destruct (Hf _ _ _ _ Hinv1 ltac:(rewrite Hsc; exact Hok) Hd) as (Ha & Hadv & Hsd).
+  rewrite Hsc in *. rewrite avail_sub in Ha by exact Hinv.
+  split; [exact Hle|]. split; [lia|]. split; [eapply adv_sub; eassumption|exact Hsd].
+Qed.
+
+Lemma child_bwd dec sd ok st d size n :
+  dec_bwd dec sd ok -> rinv st d -> ok size ->
+  size <= dr_scope d -> size <= avail st (d_chain d) -> sd (slice st size) = Some n ->
+  dr_sub_scope st d size = OK (sub_st st size, sub_d st d size) /\
+  exists st2, dec (sub_st st size) (sub_d st d size) = OK (n, st2).
+Proof.
+  intros Hb Hinv Hok Hle Ha Hsd. split; [apply dr_sub_scope_ok, Hle|].
+  destruct (rinv_sub st d size Hinv Hle) as [Hinv1 Hsc].
+  apply Hb; rewrite ?Hsc; try assumption.
+  rewrite avail_sub by exact Hinv. lia.
+Qed.
+
+(* ---- small arithmetic facts about the uint32/uint64 helpers ---- *)
+Lemma sub32_small a b : b <= a -> a < two32 -> sub32 a b = a - b.
+Proof.
+  intros H1 H2. unfold sub32, wrap32. rewrite (N.mod_small b) by lia.
+  replace (a + two32 - b) with ((a - b) + 1 * two32) by lia.
+  rewrite N.mod_add by (rewrite two32_val; lia). apply N.mod_small. lia.
+Qed.
+
+Lemma sub64_small a b : b <= a -> a < two64 -> sub64 a b = a - b.
+Proof.
+  intros H1 H2. pose proof two64_pos. unfold sub64, wrap64. rewrite (N.mod_small b) by lia.
+  replace (a + two64 - b) with ((a - b) + 1 * two64) by lia.
+  rewrite N.mod_add by lia. apply N.mod_small. lia.
+Qed.
+
+Lemma sub64_wrapped a b : a < b -> b < two64 -> sub64 a b = a + two64 - b.
+Proof.
+  intros H1 H2. unfold sub64, wrap64. rewrite (N.mod_small b) by lia. apply N.mod_small. lia.
+Qed.
+
+Lemma wrap32_small a : a < two32 -> wrap32 a = a.
+Proof. apply N.mod_small. Qed.
+
+Lemma mul64_small a b : a * b < two64 -> mul64 a b = a * b.
+Proof. apply N.mod_small. Qed.
+
+Lemma two32_two64_gap : two32 + two32 <= two64.
+Proof. rewrite two32_eq, two64_eq. change (2 ^ 64) with (2 ^ 32 * 2 ^ 32). 
+  assert (2 <= 2 ^ 32) by (change 2 with (2 ^ 1) at 1; apply N.pow_le_mono_r; lia). nia. Qed.
+
+(* little-endian values *)
+Lemma le_val_bound : forall bs, le_val bs < 256 ^ lenN bs.
+Proof.
+  induction bs as [|b bs IH]; [cbn; lia|].
+  cbn [le_val]. rewrite lenN_cons, N.add_comm, N.pow_add_r, N.pow_1_r.
+  pose proof (BitfieldsProofs.N_of_byte_lt b). nia.
+Qed.
+
+Lemma le_val_4_bound bs : lenN bs <= 4 -> le_val bs < two32.
+Proof.
+  intros H. pose proof (le_val_bound bs) as Hb.
+  assert (256 ^ lenN bs <= 256 ^ 4) by (apply N.pow_le_mono_r; lia).
+  change (256 ^ 4) with 4294967296 in *. rewrite two32_val. lia.
+Qed.
+
+(* offsets: non-decreasing from [prev] *)
+Fixpoint sorted_from (prev : N) (l : list N) : Prop :=
+  match l with [] => True | o :: r => prev <= o /\ sorted_from o r end.
+
+Lemma sorted_from_last : forall l prev, sorted_from prev l -> prev <= last l prev.
+Proof.
+  induction l as [|o r IH]; intros prev H; [cbn; lia|].
+  destruct H as [H1 H2]. specialize (IH o H2).
+  destruct r as [|o' r']; [cbn; lia|].
+  change (last (o :: o' :: r') prev) with (last (o' :: r') prev).
+  assert (E : forall d1 d2, last (o' :: r') d1 = last (o' :: r') d2).
+  { clear. revert o'. induction r' as [|x r IH]; intros o' d1 d2; [reflexivity|].
+    change (last (o' :: x :: r) d1) with (last (x :: r) d1).
+    change (last (o' :: x :: r) d2) with (last (x :: r) d2). apply IH. }
+  rewrite (E prev o). lia.
+Qed.
+
+Lemma last_cons_cons {A} (a b : A) l d : last (a :: b :: l) d = last (b :: l) d.
+Proof. reflexivity. Qed.
+
+Lemma last_nonempty_default {A} (a : A) l d1 d2 : last (a :: l) d1 = last (a :: l) d2.
+Proof.
+  revert a. induction l as [|x r IH]; intros a; [reflexivity|].
+  rewrite !last_cons_cons. apply IH.
+Qed.
+
+(* inversion helpers for the two monads *)
+Ltac bindOK H E :=
+  match type of H with
+  | bind ?r _ = OK _ =>
+    destruct r eqn:E; cbn [bind] in H; [|discriminate H|discriminate H]
+  end.
+Ltac obindS H E :=
+  match type of H with
+  | obind ?r _ = Some _ =>
+    destruct r eqn:E; cbn [obind] in H; [|discriminate H]
+  end.
+
+(* ---- series of fixed-size elements ---- *)
+Section FixedSeries.
+Variables (dec : decoder) (sd : sdecoder) (ok : N -> Prop) (size : N).
+Hypothesis Hok : ok size.
+
+Lemma fixed_series_fwd : dec_fwd dec sd ok ->
+  forall count st d ns st', rinv st d ->
+  deser_fixed_series dec count size st d = OK (ns, st') ->
+  N.of_nat count * size <= avail st (d_chain d) /\
+  adv st (d_chain d) (N.of_nat count * size) st' /\
+  s_fixed_series sd count size (slice st (N.of_nat count * size)) = Some ns.
+Proof.
+  intros Hf. induction count as [|k IH]; intros st d ns st' Hinv H.
+  - cbn [deser_fixed_series] in H. inversion H; subst.
+    change (N.of_nat 0 * size) with (0 * size). rewrite N.mul_0_l.
+    split; [lia|]. split; [apply adv_refl|reflexivity].
+  - cbn [deser_fixed_series] in H.
+    bindOK H E1. destruct a as [st1 sdr]. bindOK H E2. destruct a as [n st2].
+    bindOK H E3. destruct a as [ns' st3]. inversion H; subst. clear H.
+    destruct (child_fwd _ _ _ _ _ _ _ _ _ _ Hf Hinv Hok E1 E2) as (Hle & Ha & Hadv & Hsd).
+    pose proof (rinv_adv _ _ _ _ _ Hinv Hadv) as Hinv2.
+    destruct (IH _ _ _ _ Hinv2 E3) as (Ha' & Hadv' & Hs').
+    destruct Hinv as ((_ & HF) & _).
+    rewrite (avail_adv _ _ _ _ HF Hadv) in Ha'.
+    assert (Etot : N.of_nat (S k) * size = size + N.of_nat k * size) by lia.
+    rewrite Etot. split; [lia|]. split; [eapply adv_trans; eassumption|].
+    cbn [s_fixed_series].
+    pose proof (slice_len_ge st (d_chain d) size (size + N.of_nat k * size) Ha ltac:(lia)) as Hlen.
+    destruct (N.ltb_spec (lenN (slice st (size + N.of_nat k * size))) size); [lia|].
+    rewrite slice_firstn by lia. rewrite Hsd. cbn [obind].
+    rewrite (slice_skipn _ _ _ _ _ Hadv).
+    replace (size + N.of_nat k * size - size) with (N.of_nat k * size) by lia.
+    rewrite Hs'. reflexivity.
+Qed.
+
+Lemma fixed_series_bwd : dec_sim dec sd ok ->
+  forall count st d ns, rinv st d -> size <= dr_scope d ->
+  N.of_nat count * size <= avail st (d_chain d) ->
+  s_fixed_series sd count size (slice st (N.of_nat count * size)) = Some ns ->
+  exists st', deser_fixed_series dec count size st d = OK (ns, st').
+Proof.
+  intros [Hf Hb]. induction count as [|k IH]; intros st d ns Hinv Hsz Ha H.
+  - cbn [s_fixed_series] in H. inversion H; subst. eexists; reflexivity.
+  - assert (Etot : N.of_nat (S k) * size = size + N.of_nat k * size) by lia.
+    rewrite Etot in *. cbn [s_fixed_series] in H.
+    destruct (N.ltb_spec (lenN (slice st (size + N.of_nat k * size))) size); [discriminate H|].
+    rewrite slice_firstn in H by lia.
+    obindS H E1. obindS H E2. inversion H; subst; clear H.
+    destruct (child_bwd _ _ _ _ _ _ _ Hb Hinv Hok Hsz ltac:(lia) E1) as (Es & st2 & Ed).
+    destruct (child_fwd _ _ _ _ _ _ _ _ _ _ Hf Hinv Hok Es Ed) as (_ & _ & Hadv & _).
+    pose proof (rinv_adv _ _ _ _ _ Hinv Hadv) as Hinv2.
+    rewrite (slice_skipn _ _ _ _ _ Hadv) in E2.
+    replace (size + N.of_nat k * size - size) with (N.of_nat k * size) in E2 by lia.
+    destruct (IH st2 d l Hinv2 Hsz) as (st3 & E3); [|exact E2|].
+    { destruct Hinv as ((_ & HF) & _). rewrite (avail_adv _ _ _ _ HF Hadv). lia. }
+    exists st3. cbn [deser_fixed_series]. rewrite Es. cbn [bind]. rewrite Ed. cbn [bind].
+    rewrite E3. reflexivity.
+Qed.
+End FixedSeries.
+
+(* ---- reads of k bytes / one offset through the reader itself ---- *)
+Lemma read_fwd st d k bs st' d' : rinv st d -> dr_read st d k = OK (bs, st', d') ->
+  k <= dr_scope d /\ k <= avail st (d_chain d) /\ bs = slice st k /\
+  adv st (d_chain d) k st' /\ rinv st' d' /\ dr_scope d' = dr_scope d - k /\
+  d_chain d' = d_chain d.
+Proof.
+  intros Hinv H. destruct (dr_read_fwd _ _ _ _ _ _ Hinv H) as (H1 & H2 & H3 & H4 & H5 & H6 & H7).
+  destruct (rinv_read _ _ _ _ _ Hinv H1 H4 H5 H6 H7) as [H8 H9].
+  repeat (split; [assumption|]). assumption.
+Qed.
+
+Lemma read_u32_fwd st d off st' d' : rinv st d -> dr_read_u32 st d = OK (off, st', d') ->
+  4 <= dr_scope d /\ 4 <= avail st (d_chain d) /\ off = le_val (slice st 4) /\
+  adv st (d_chain d) 4 st' /\ rinv st' d' /\ dr_scope d' = dr_scope d - 4 /\
+  d_chain d' = d_chain d.
+Proof.
+  intros Hinv H. unfold dr_read_u32 in H. bindOK H E. destruct a as [[bs st1] d1].
+  inversion H; subst; clear H.
+  destruct (read_fwd _ _ _ _ _ _ Hinv E) as (H1 & H2 & -> & H4). tauto.
+Qed.
+
+Lemma read_u32_bwd st d : rinv st d -> 4 <= dr_scope d -> 4 <= avail st (d_chain d) ->
+  exists st' d', dr_read_u32 st d = OK (le_val (slice st 4), st', d').
+Proof.
+  intros Hinv H1 H2. destruct (dr_read_bwd _ _ _ Hinv H1 H2) as (st' & d' & E).
+  exists st', d'. unfold dr_read_u32. rewrite E. reflexivity.
+Qed.
+
+Lemma read_byte_fwd st d b st' d' : rinv st d -> dr_read_byte st d = OK (b, st', d') ->
+  1 <= dr_scope d /\ 1 <= avail st (d_chain d) /\ b = le_val (slice st 1) /\
+  adv st (d_chain d) 1 st' /\ rinv st' d' /\ dr_scope d' = dr_scope d - 1 /\
+  d_chain d' = d_chain d.
+Proof.
+  intros Hinv H. unfold dr_read_byte in H. bindOK H E. destruct a as [[bs st1] d1].
+  inversion H; subst; clear H.
+  destruct (read_fwd _ _ _ _ _ _ Hinv E) as (H1 & H2 & -> & H4). tauto.
+Qed.
+
+Lemma read_byte_bwd st d : rinv st d -> 1 <= dr_scope d -> 1 <= avail st (d_chain d) ->
+  exists st' d', dr_read_byte st d = OK (le_val (slice st 1), st', d').
+Proof.
+  intros Hinv H1 H2. destruct (dr_read_bwd _ _ _ Hinv H1 H2) as (st' & d' & E).
+  exists st', d'. unfold dr_read_byte. rewrite E. reflexivity.
+Qed.
+
+Lemma nat_of_4 : nat_of 4 = 4%nat. Proof. reflexivity. Qed.
+Lemma nat_of_1 : nat_of 1 = 1%nat. Proof. reflexivity. Qed.
+
+(* ---- offset tables ---- *)
+Lemma read_offsets_fwd : forall count prev st d offs st' d', rinv st d ->
+  read_offsets count prev st d = OK (offs, st', d') ->
+  4 * N.of_nat count <= dr_scope d /\ 4 * N.of_nat count <= avail st (d_chain d) /\
+  adv st (d_chain d) (4 * N.of_nat count) st' /\ rinv st' d' /\
+  dr_scope d' = dr_scope d - 4 * N.of_nat count /\ d_chain d' = d_chain d /\
+  length offs = count /\ sorted_from prev offs /\ Forall (fun o => o < two32) offs /\
+  forall X, 4 * N.of_nat count <= X ->
+    s_offsets count prev (slice st X) = Some (offs, slice st' (X - 4 * N.of_nat count)).
+Proof.
+  induction count as [|k IH]; intros prev st d offs st' d' Hinv H.
+  - cbn [read_offsets] in H. inversion H; subst. change (4 * N.of_nat 0) with 0.
+    rewrite N.sub_0_r. split; [lia|]. split; [lia|]. split; [apply adv_refl|].
+    split; [exact Hinv|]. repeat split; try constructor.
+    intros X _. rewrite N.sub_0_r. reflexivity.
+  - cbn [read_offsets] in H. bindOK H E1. destruct a as [[off st1] d1].
+    destruct (N.ltb_spec off prev) as [Hlt|Hge]; [discriminate H|].
+    bindOK H E2. destruct a as [[offs' st2] d2]. inversion H; subst; clear H.
+    destruct (read_u32_fwd _ _ _ _ _ Hinv E1) as (R1 & R2 & R3 & R4 & R5 & R6 & R7).
+    destruct (IH _ _ _ _ _ _ R5 E2) as (I1 & I2 & I3 & I4 & I5 & I6 & I7 & I8 & I9 & I10).
+    destruct Hinv as ((Hnd & HF) & Hinv').
+    rewrite R7 in *. rewrite (avail_adv _ _ _ _ HF R4) in I2. rewrite R6 in *.
+    assert (Etot : 4 * N.of_nat (S k) = 4 + 4 * N.of_nat k) by lia. rewrite Etot.
+    split; [lia|]. split; [lia|]. split; [eapply adv_trans; eassumption|].
+    split; [exact I4|]. split; [lia|]. split; [exact I6|]. split; [cbn [length]; lia|].
+    split; [split; assumption|]. split.
+    { constructor; [|exact I9]. rewrite R3. apply le_val_4_bound.
+      unfold slice. rewrite lenN_firstn'. lia. }
+    intros X HX. cbn [s_offsets].
+    pose proof (slice_len_ge st (d_chain d) 4 X R2 ltac:(lia)) as Hlen.
+    destruct (N.ltb_spec (lenN (slice st X)) 4); [lia|].
+    rewrite <- nat_of_4, slice_firstn by lia. rewrite <- R3.
+    destruct (N.ltb_spec off prev); [lia|].
+    rewrite (slice_skipn _ _ _ _ _ R4), (I10 (X - 4)) by lia. cbn [obind].
+    replace (X - 4 - 4 * N.of_nat k) with (X - (4 + 4 * N.of_nat k)) by lia. reflexivity.
+Qed.
+
+Lemma read_offsets_bwd : forall count prev st d offs rest X, rinv st d ->
+  X <= dr_scope d -> X <= avail st (d_chain d) ->
+  s_offsets count prev (slice st X) = Some (offs, rest) ->
+  exists st' d', read_offsets count prev st d = OK (offs, st', d').
+Proof.
+  induction count as [|k IH]; intros prev st d offs rest X Hinv HX Ha H.
+  - cbn [s_offsets] in H. inversion H; subst. do 2 eexists; reflexivity.
+  - cbn [s_offsets] in H. rewrite (slice_len st (d_chain d) X Ha) in H.
+    destruct (N.ltb_spec X 4); [discriminate H|].
+    rewrite <- nat_of_4, slice_firstn in H by lia.
+    destruct (N.ltb_spec (le_val (slice st 4)) prev) as [Hlt|Hge]; [discriminate H|].
+    obindS H E. destruct p as [offs' rest']. inversion H; subst; clear H.
+    destruct (read_u32_bwd st d Hinv ltac:(lia) ltac:(lia)) as (st1 & d1 & E1).
+    destruct (read_u32_fwd _ _ _ _ _ Hinv E1) as (R1 & R2 & R3 & R4 & R5 & R6 & R7).
+    rewrite (slice_skipn _ _ _ _ _ R4) in E.
+    destruct (IH (le_val (slice st 4)) st1 d1 offs' rest (X - 4) R5) as (st2 & d2 & E2); [lia| |exact E|].
+    { destruct Hinv as ((_ & HF) & _). rewrite R7, (avail_adv _ _ _ _ HF R4). lia. }
+    exists st2, d2. cbn [read_offsets]. rewrite E1. cbn [bind].
+    destruct (N.ltb_spec (le_val (slice st 4)) prev); [lia|]. rewrite E2. reflexivity.
+Qed.
+
+(* ---- series of variable-size elements ---- *)
+Lemma sorted_head_le_last : forall l o d, sorted_from o l -> o <= last (o :: l) d.
+Proof.
+  induction l as [|o' r IH]; intros o d H; [cbn [last]; lia|].
+  destruct H as [H1 H2]. rewrite last_cons_cons. specialize (IH o' d H2). lia.
+Qed.
+
+Lemma s_var_elems_last sd scope : forall offs bs ns, offs <> [] ->
+  s_var_elems sd offs scope bs = Some ns -> last offs 0 <= scope.
+Proof.
+  induction offs as [|o rest IH]; intros bs ns Hne H; [congruence|].
+  destruct rest as [|o' rest'].
+  - cbn [s_var_elems] in H. destruct (N.ltb_spec scope o); [discriminate H|]. cbn [last]. lia.
+  - rewrite last_cons_cons. cbn [s_var_elems] in H. fold s_var_elems in H.
+    destruct (_ <? _); [discriminate H|]. obindS H E1. obindS H E2.
+    eapply IH; [discriminate|exact E2].
+Qed.
+
+Lemma s_var_elems_cons2 sd o o' rest scope bs :
+  s_var_elems sd (o :: o' :: rest) scope bs =
+  if lenN bs <? o' - o then None else
+  odo n <- sd (firstn (nat_of (o' - o)) bs);
+  odo ns <- s_var_elems sd (o' :: rest) scope (skipn (nat_of (o' - o)) bs);
+  Some (n :: ns).
+Proof. reflexivity. Qed.
+
+Lemma deser_var_elems_cons2 dec o o' rest scope st d :
+  deser_var_elems dec (o :: o' :: rest) scope st d =
+  do s <- dr_sub_scope st d (sub32 o' o); let '(st1, sd) := s in
+  do r <- dec st1 sd; let '(n, st2) := r in
+  do more <- deser_var_elems dec (o' :: rest) scope st2 d; let '(ns, st3) := more in
+  OK (n :: ns, st3).
+Proof. reflexivity. Qed.
+
+Section VarSeries.
+Variables (dec : decoder) (sd : sdecoder) (ok : N -> Prop).
+Hypothesis Hok : forall s, ok s.
+
+Lemma var_elems_fwd : dec_fwd dec sd ok ->
+  forall offs o1 scope st d ns st', rinv st d -> scope < two32 ->
+  sorted_from o1 offs -> Forall (fun o => o < two32) offs -> o1 < two32 ->
+  deser_var_elems dec (o1 :: offs) scope st d = OK (ns, st') ->
+  last (o1 :: offs) 0 <= scope /\ scope - o1 <= avail st (d_chain d) /\
+  adv st (d_chain d) (scope - o1) st' /\
+  s_var_elems sd (o1 :: offs) scope (slice st (scope - o1)) = Some ns.
+Proof.
+  intros Hf. induction offs as [|o' rest IH]; intros o1 scope st d ns st' Hinv Hsc Hso Hlt Ho1 H.
+  - cbn [deser_var_elems] in H. bindOK H E1. destruct a as [st1 sdr].
+    bindOK H E2. destruct a as [n st2]. inversion H; subst; clear H.
+    pose proof E1 as E1'. apply dr_sub_scope_inv in E1'. destruct E1' as (Hle & _).
+    assert (Hd : dr_scope d < two32) by (destruct Hinv as (_ & ? & ?); unfold dr_scope; lia).
+    pose proof two32_lt_two64 as H3264. pose proof two32_two64_gap as Hgap.
+    assert (Ho : o1 <= scope).
+    { destruct (N.le_gt_cases o1 scope) as [|Hgt]; [assumption|].
+      rewrite sub64_wrapped in Hle by lia. lia. }
+    rewrite sub64_small in E1 by lia.
+    destruct (child_fwd _ _ _ _ _ _ _ _ _ _ Hf Hinv (Hok _) E1 E2) as (_ & Ha & Hadv & Hsd).
+    cbn [last]. split; [exact Ho|]. split; [exact Ha|]. split; [exact Hadv|].
+    cbn [s_var_elems]. destruct (N.ltb_spec scope o1); [lia|].
+    rewrite (slice_len st (d_chain d) _ Ha).
+    destruct (N.ltb_spec (scope - o1) (scope - o1)); [lia|].
+    rewrite slice_firstn by lia. rewrite Hsd. reflexivity.
+  - destruct Hso as [Hle1 Hso]. pose proof (Forall_inv Hlt) as Ho'.
+    pose proof (Forall_inv_tail Hlt) as Hlt'.
+    rewrite deser_var_elems_cons2 in H.
+    rewrite sub32_small in H by assumption.
+    bindOK H E1. destruct a as [st1 sdr]. bindOK H E2. destruct a as [n st2].
+    bindOK H E3. destruct a as [ns' st3]. inversion H; subst; clear H.
+    destruct (child_fwd _ _ _ _ _ _ _ _ _ _ Hf Hinv (Hok _) E1 E2) as (_ & Ha & Hadv & Hsd).
+    pose proof (rinv_adv _ _ _ _ _ Hinv Hadv) as Hinv2.
+    destruct (IH o' scope st2 d ns' st' Hinv2 Hsc Hso Hlt' Ho' E3) as (I1 & I2 & I3 & I4).
+    destruct Hinv as ((_ & HF) & _). rewrite (avail_adv _ _ _ _ HF Hadv) in I2.
+    pose proof (sorted_head_le_last _ _ 0 Hso) as Hlast.
+    assert (Ho's : o' <= scope) by lia.
+    rewrite last_cons_cons.
+    split; [exact I1|]. split; [lia|].
+    assert (Etot : scope - o1 = (o' - o1) + (scope - o')) by lia.
+    split; [rewrite Etot; eapply adv_trans; eassumption|].
+    rewrite s_var_elems_cons2.
+    pose proof (slice_len_ge st (d_chain d) (o' - o1) (scope - o1) Ha ltac:(lia)) as Hlen.
+    destruct (N.ltb_spec (lenN (slice st (scope - o1))) (o' - o1)); [lia|].
+    rewrite slice_firstn by lia. rewrite Hsd. cbn [obind].
+    rewrite (slice_skipn _ _ _ _ _ Hadv).
+    replace (scope - o1 - (o' - o1)) with (scope - o') by lia. rewrite I4. reflexivity.
+Qed.
+
+Lemma var_elems_bwd : dec_sim dec sd ok ->
+  forall offs o1 scope st d ns, rinv st d -> scope < two32 ->
+  sorted_from o1 offs -> Forall (fun o => o < two32) offs -> o1 < two32 ->
+  scope - o1 <= dr_scope d -> scope - o1 <= avail st (d_chain d) ->
+  s_var_elems sd (o1 :: offs) scope (slice st (scope - o1)) = Some ns ->
+  exists st', deser_var_elems dec (o1 :: offs) scope st d = OK (ns, st').
+Proof.
+  intros [Hf Hb].
+  induction offs as [|o' rest IH]; intros o1 scope st d ns Hinv Hsc Hso Hlt Ho1 Hds Ha H.
+  - pose proof two32_lt_two64 as H3264.
+    cbn [s_var_elems] in H. destruct (N.ltb_spec scope o1); [discriminate H|].
+    destruct (_ <? _); [discriminate H|]. rewrite slice_firstn in H by lia.
+    obindS H E1. inversion H; subst; clear H.
+    destruct (child_bwd _ _ _ _ _ _ _ Hb Hinv (Hok _) Hds Ha E1) as (Es & st2 & Ed).
+    exists st2. cbn [deser_var_elems]. rewrite sub64_small by lia. rewrite Es. cbn [bind].
+    rewrite Ed. reflexivity.
+  - assert (Hlast0 : last (o1 :: o' :: rest) 0 <= scope)
+      by (eapply s_var_elems_last; [discriminate|exact H]).
+    destruct Hso as [Hle1 Hso]. pose proof (Forall_inv Hlt) as Ho'.
+    pose proof (Forall_inv_tail Hlt) as Hlt'.
+    pose proof (sorted_head_le_last _ _ 0 Hso) as Hlast.
+    rewrite last_cons_cons in Hlast0.
+    assert (Ho's : o' <= scope) by lia.
+    rewrite s_var_elems_cons2 in H.
+    rewrite (slice_len st (d_chain d) _ Ha) in H.
+    destruct (N.ltb_spec (scope - o1) (o' - o1)); [discriminate H|].
+    rewrite slice_firstn in H by lia.
+    obindS H E1. obindS H E2. inversion H; subst; clear H.
+    destruct (child_bwd _ _ _ _ _ _ _ Hb Hinv (Hok (o' - o1)) ltac:(lia) ltac:(lia) E1)
+      as (Es & st2 & Ed).
+    destruct (child_fwd _ _ _ _ _ _ _ _ _ _ Hf Hinv (Hok _) Es Ed) as (_ & _ & Hadv & _).
+    pose proof (rinv_adv _ _ _ _ _ Hinv Hadv) as Hinv2.
+    rewrite (slice_skipn _ _ _ _ _ Hadv) in E2.
+    replace (scope - o1 - (o' - o1)) with (scope - o') in E2 by lia.
+    destruct (IH o' scope st2 d l Hinv2 Hsc Hso Hlt' Ho') as (st3 & E3); [lia| |exact E2|].
+    { destruct Hinv as ((_ & HF) & _). rewrite (avail_adv _ _ _ _ HF Hadv). lia. }
+    exists st3. rewrite deser_var_elems_cons2.
+    rewrite sub32_small by assumption. rewrite Es. cbn [bind]. rewrite Ed. cbn [bind].
+    rewrite E3. reflexivity.
+Qed.
+End VarSeries.
+
+(* ---- containers ---- *)
+Definition fld_len (f : ty) : N := if ti_fixed (info f) then ti_size (info f) else 4.
+Definition fp_len (fs : list ty) : N := sumN (map fld_len fs).
+Definition fld_nvar (f : ty) : N := if ti_fixed (info f) then 0 else 1.
+Definition nvar (fs : list ty) : N := sumN (map fld_nvar fs).
+
+Definition cf_shape1 (f : ty) (c : cfield) : Prop :=
+  match c with CFixed _ => ti_fixed (info f) = true | CVar _ => ti_fixed (info f) = false end.
+Definition cf_shape (fs : list ty) (cfs : list cfield) : Prop := Forall2 cf_shape1 fs cfs.
+
+Fixpoint cf_offs (cfs : list cfield) : list N :=
+  match cfs with
+  | [] => []
+  | CFixed _ :: r => cf_offs r
+  | CVar o :: r => o :: cf_offs r
+  end.
+
+Lemma cf_next_offs {D} : forall cfs (l : list D), length cfs = length l ->
+  cf_next (combine cfs l) = match cf_offs cfs with [] => None | o :: _ => Some o end.
+Proof.
+  induction cfs as [|c cfs IH]; intros l Hl; [reflexivity|].
+  destruct l as [|x l]; [discriminate Hl|]. cbn [combine cf_next cf_offs].
+  destruct c as [n|o]; [|reflexivity]. apply IH. cbn [length] in Hl. lia.
+Qed.
+
+Lemma deser_cont_var_cvar off (dec : decoder) rest scope st d :
+  deser_cont_var ((CVar off, dec) :: rest) scope st d =
+  do s <- dr_sub_scope st d
+            (match cf_next rest with Some o' => sub32 o' off | None => sub32 (wrap32 scope) off end);
+  let '(st1, sd) := s in
+  do r <- dec st1 sd; let '(n, st2) := r in
+  do more <- deser_cont_var rest scope st2 d; let '(ns, st3) := more in
+  OK (n :: ns, st3).
+Proof. reflexivity. Qed.
+
+Section Sim.
+Variable zh : nat -> chunk.
+
+Notation vdec := (view_deser zh).
+Notation sdc := (sdec zh).
+Definition fwd_ty (f : ty) : Prop := dec_fwd (vdec f) (sdc f) (leaf_ok f).
+Definition sim_ty (f : ty) : Prop := dec_sim (vdec f) (sdc f) (leaf_ok f).
+
+Lemma cont_fixed_fwd : forall fs, Forall fwd_ty fs ->
+  forall first fp prev scope st d cfs st' d', rinv st d ->
+  deser_cont_fixed (combine (map info fs) (map vdec fs)) first fp prev scope st d
+    = OK (cfs, st', d') ->
+  fp_len fs <= avail st (d_chain d) /\ adv st (d_chain d) (fp_len fs) st' /\ rinv st' d' /\
+  4 * nvar fs <= dr_scope d /\ dr_scope d' = dr_scope d - 4 * nvar fs /\
+  d_chain d' = d_chain d /\
+  cf_shape fs cfs /\ sorted_from prev (cf_offs cfs) /\
+  Forall (fun o => o <= scope) (cf_offs cfs) /\
+  (first = true -> match cf_offs cfs with o :: _ => o = fp | [] => True end) /\
+  forall X, fp_len fs <= X ->
+    s_cont_fixed (combine (map info fs) (map sdc fs)) first fp prev scope (slice st X)
+    = Some (cfs, slice st' (X - fp_len fs)).
+Proof.
+  induction 1 as [|f fs Hf _ IH]; intros first fp prev scope st d cfs st' d' Hinv H.
+  - cbn [map combine deser_cont_fixed] in H. inversion H; subst.
+    unfold fp_len, nvar. cbn [map sumN fold_right]. rewrite N.mul_0_r, N.sub_0_r.
+    split; [lia|]. split; [apply adv_refl|]. split; [exact Hinv|]. split; [lia|].
+    split; [reflexivity|]. split; [reflexivity|]. split; [constructor|].
+    split; [exact I|]. split; [constructor|]. split; [intros _; exact I|].
+    intros X _. rewrite N.sub_0_r. reflexivity.
+  - cbn [map combine deser_cont_fixed] in H.
+    unfold fp_len, nvar. rewrite !map_cons, !sumN_cons. fold (fp_len fs) (nvar fs).
+    unfold fld_len, fld_nvar.
+    destruct (ti_fixed (info f)) eqn:Hfx.
+    + bindOK H E1. destruct a as [st1 sdr]. bindOK H E2. destruct a as [n st2].
+      bindOK H E3. destruct a as [[cs st3] d3]. inversion H; subst; clear H.
+      destruct (child_fwd _ _ _ _ _ _ _ _ _ _ Hf Hinv (leaf_ok_fixed f Hfx) E1 E2)
+        as (_ & Ha & Hadv & Hsd).
+      pose proof (rinv_adv _ _ _ _ _ Hinv Hadv) as Hinv2.
+      destruct (IH _ _ _ _ _ _ _ _ _ Hinv2 E3) as (I1 & I2 & I3 & I4 & I5 & I6 & I7 & I8 & I9 & I10 & I11).
+      destruct Hinv as ((_ & HF) & _). rewrite (avail_adv _ _ _ _ HF Hadv) in I1.
+      split; [lia|]. split; [eapply adv_trans; eassumption|]. split; [exact I3|].
+      split; [lia|]. split; [rewrite I5; f_equal; lia|]. split; [exact I6|].
+      split; [constructor; [exact Hfx|exact I7]|]. cbn [cf_offs].
+      split; [exact I8|]. split; [exact I9|]. split; [exact I10|].
+      intros X HX. cbn [map combine s_cont_fixed]. rewrite Hfx.
+      pose proof (slice_len_ge st (d_chain d) _ X Ha ltac:(lia)) as Hlen.
+      destruct (N.ltb_spec (lenN (slice st X)) (ti_size (info f))); [lia|].
+      rewrite slice_firstn by lia. rewrite Hsd. cbn [obind].
+      rewrite (slice_skipn _ _ _ _ _ Hadv), (I11 (X - ti_size (info f))) by lia. cbn [obind].
+      replace (X - ti_size (info f) - fp_len fs) with (X - (ti_size (info f) + fp_len fs)) by lia.
+      reflexivity.
+    + bindOK H E1. destruct a as [[off st1] d1].
+      destruct (N.ltb_spec off prev) as [|Hge]; [discriminate H|].
+      destruct (N.ltb_spec scope off) as [|Hsc]; [discriminate H|].
+      destruct (first && negb (off =? fp)) eqn:Hfirst; [discriminate H|].
+      bindOK H E2. destruct a as [[cs st3] d3]. inversion H; subst; clear H.
+      destruct (read_u32_fwd _ _ _ _ _ Hinv E1) as (R1 & R2 & R3 & R4 & R5 & R6 & R7).
+      destruct (IH _ _ _ _ _ _ _ _ _ R5 E2) as (I1 & I2 & I3 & I4 & I5 & I6 & I7 & I8 & I9 & I10 & I11).
+      destruct Hinv as ((_ & HF) & _). rewrite R7 in *. rewrite (avail_adv _ _ _ _ HF R4) in I1.
+      rewrite R6 in *.
+      split; [lia|]. split; [eapply adv_trans; eassumption|]. split; [exact I3|].
+      split; [lia|]. split; [rewrite I5; lia|]. split; [exact I6|].
+      split; [constructor; [exact Hfx|exact I7]|]. cbn [cf_offs].
+      split; [split; assumption|]. split; [constructor; assumption|].
+      split. { intros ->. cbn [andb] in Hfirst. apply negb_false_iff, N.eqb_eq in Hfirst. exact Hfirst. }
+      intros X HX. cbn [map combine s_cont_fixed]. rewrite Hfx.
+      pose proof (slice_len_ge st (d_chain d) 4 X R2 ltac:(lia)) as Hlen.
+      destruct (N.ltb_spec (lenN (slice st X)) 4); [lia|].
+      rewrite <- nat_of_4, slice_firstn by lia. rewrite <- R3.
+      destruct (N.ltb_spec off prev); [lia|]. destruct (N.ltb_spec scope off); [lia|].
+      rewrite Hfirst.
+      rewrite (slice_skipn _ _ _ _ _ R4), (I11 (X - 4)) by lia. cbn [obind].
+      replace (X - 4 - fp_len fs) with (X - (4 + fp_len fs)) by lia. reflexivity.
+Qed.
+
+Lemma cont_fixed_bwd : forall fs, Forall sim_ty fs ->
+  forall first fp prev scope st d cfs rest X, rinv st d ->
+  X <= dr_scope d -> X <= avail st (d_chain d) ->
+  s_cont_fixed (combine (map info fs) (map sdc fs)) first fp prev scope (slice st X)
+    = Some (cfs, rest) ->
+  exists st' d',
+    deser_cont_fixed (combine (map info fs) (map vdec fs)) first fp prev scope st d
+    = OK (cfs, st', d').
+Proof.
+  induction 1 as [|f fs [Hf Hb] _ IH]; intros first fp prev scope st d cfs rest X Hinv HX Ha H.
+  - cbn [map combine s_cont_fixed] in H. inversion H; subst. do 2 eexists; reflexivity.
+  - cbn [map combine s_cont_fixed] in H. cbn [map combine deser_cont_fixed].
+    rewrite (slice_len st (d_chain d) X Ha) in H.
+    destruct (ti_fixed (info f)) eqn:Hfx.
+    + destruct (N.ltb_spec X (ti_size (info f))); [discriminate H|].
+      rewrite slice_firstn in H by lia. obindS H E1. obindS H E2.
+      destruct p as [cs bs']. inversion H; subst; clear H.
+      destruct (child_bwd _ _ _ _ _ _ _ Hb Hinv (leaf_ok_fixed f Hfx) ltac:(lia) ltac:(lia) E1)
+        as (Es & st2 & Ed).
+      destruct (child_fwd _ _ _ _ _ _ _ _ _ _ Hf Hinv (leaf_ok_fixed f Hfx) Es Ed)
+        as (_ & _ & Hadv & _).
+      pose proof (rinv_adv _ _ _ _ _ Hinv Hadv) as Hinv2.
+      rewrite (slice_skipn _ _ _ _ _ Hadv) in E2.
+      destruct (IH first fp prev scope st2 d cs rest (X - ti_size (info f)) Hinv2)
+        as (st3 & d3 & E3); [lia| |exact E2|].
+      { destruct Hinv as ((_ & HF) & _). rewrite (avail_adv _ _ _ _ HF Hadv). lia. }
+      exists st3, d3. rewrite Es. cbn [bind]. rewrite Ed. cbn [bind]. rewrite E3. reflexivity.
+    + destruct (N.ltb_spec X 4); [discriminate H|].
+      rewrite <- nat_of_4, slice_firstn in H by lia.
+      destruct (N.ltb_spec (le_val (slice st 4)) prev); [discriminate H|].
+      destruct (N.ltb_spec scope (le_val (slice st 4))); [discriminate H|].
+      destruct (first && negb (le_val (slice st 4) =? fp)) eqn:Hfirst; [discriminate H|].
+      obindS H E2. destruct p as [cs bs']. inversion H; subst; clear H.
+      destruct (read_u32_bwd st d Hinv ltac:(lia) ltac:(lia)) as (st1 & d1 & E1).
+      destruct (read_u32_fwd _ _ _ _ _ Hinv E1) as (R1 & R2 & R3 & R4 & R5 & R6 & R7).
+      rewrite (slice_skipn _ _ _ _ _ R4) in E2.
+      destruct (IH false fp (le_val (slice st 4)) scope st1 d1 cs rest (X - 4) R5)
+        as (st3 & d3 & E3); [lia| |exact E2|].
+      { destruct Hinv as ((_ & HF) & _). rewrite R7, (avail_adv _ _ _ _ HF R4). lia. }
+      exists st3, d3. rewrite E1. cbn [bind].
+      destruct (N.ltb_spec (le_val (slice st 4)) prev); [lia|].
+      destruct (N.ltb_spec scope (le_val (slice st 4))); [lia|].
+      rewrite Hfirst, E3. reflexivity.
+Qed.
+
+Definition cf_tot (scope : N) (cfs : list cfield) : N :=
+  match cf_offs cfs with [] => 0 | o1 :: _ => scope - o1 end.
+Definition cf_sorted (cfs : list cfield) : Prop :=
+  match cf_offs cfs with [] => True | o1 :: r => sorted_from o1 r end.
+
+Lemma cf_shape_length fs cfs : cf_shape fs cfs -> length cfs = length fs.
+Proof. intros H. symmetry. induction H; cbn [length]; congruence. Qed.
+
+Lemma cont_var_fwd : forall fs cfs, cf_shape fs cfs -> Forall fwd_ty fs ->
+  forall scope st d ns st', rinv st d -> scope < two32 ->
+  cf_sorted cfs -> Forall (fun o => o <= scope) (cf_offs cfs) ->
+  deser_cont_var (combine cfs (map vdec fs)) scope st d = OK (ns, st') ->
+  cf_tot scope cfs <= avail st (d_chain d) /\ adv st (d_chain d) (cf_tot scope cfs) st' /\
+  s_cont_var (combine cfs (map sdc fs)) scope (slice st (cf_tot scope cfs)) = Some ns.
+Proof.
+  induction 1 as [|f c fs cfs Hc Hsh IH]; intros HF scope st d ns st' Hinv Hsc Hso Hle H.
+  - cbn [map combine deser_cont_var] in H. inversion H; subst. unfold cf_tot. cbn [cf_offs].
+    split; [lia|]. split; [apply adv_refl|reflexivity].
+  - pose proof (Forall_inv HF) as Hf. pose proof (Forall_inv_tail HF) as HF'.
+    cbn [map combine] in H |- *. destruct c as [n|off].
+    + cbn [deser_cont_var] in H. bindOK H E. destruct a as [ns' st1].
+      inversion H; subst; clear H.
+      unfold cf_tot, cf_sorted in *. cbn [cf_offs] in *.
+      destruct (IH HF' _ _ _ _ _ Hinv Hsc Hso Hle E) as (I1 & I2 & I3).
+      split; [exact I1|]. split; [exact I2|]. cbn [s_cont_var]. rewrite I3. reflexivity.
+    + rewrite deser_cont_var_cvar in H.
+      pose proof (cf_shape_length _ _ Hsh) as Hlen.
+      rewrite cf_next_offs in H by (rewrite map_length; exact Hlen).
+      unfold cf_tot, cf_sorted in *. cbn [cf_offs] in *. cbn [cf_shape1] in Hc.
+      pose proof (Forall_inv Hle) as Hoff. cbv beta in Hoff. pose proof (Forall_inv_tail Hle) as Hle'.
+      cbn [s_cont_var]. rewrite cf_next_offs by (rewrite map_length; exact Hlen).
+      destruct (cf_offs cfs) as [|o' r] eqn:Eoffs.
+      * rewrite wrap32_small, sub32_small in H by lia.
+        bindOK H E1. destruct a as [st1 sdr]. bindOK H E2. destruct a as [n st2].
+        bindOK H E3. destruct a as [ns' st3]. inversion H; subst; clear H.
+        destruct (child_fwd _ _ _ _ _ _ _ _ _ _ Hf Hinv (leaf_ok_var f _ Hc) E1 E2)
+          as (_ & Ha & Hadv & Hsd).
+        pose proof (rinv_adv _ _ _ _ _ Hinv Hadv) as Hinv2.
+        destruct (IH HF' _ _ _ _ _ Hinv2 Hsc I Hle' E3) as (I1 & I2 & I3).
+        split; [exact Ha|].
+        split; [apply (adv_eq _ _ (scope - off + 0)); [lia|]; eapply adv_trans; eassumption|].
+        rewrite (slice_len st (d_chain d) _ Ha).
+        destruct (N.ltb_spec (scope - off) (scope - off)); [lia|].
+        rewrite slice_firstn by lia. rewrite Hsd. cbn [obind].
+        rewrite (slice_skipn _ _ _ _ _ Hadv), N.sub_diag, I3. reflexivity.
+      * destruct Hso as [Hoo' Hso]. pose proof (Forall_inv Hle') as Ho'. cbv beta in Ho'.
+        rewrite sub32_small in H by lia.
+        bindOK H E1. destruct a as [st1 sdr]. bindOK H E2. destruct a as [n st2].
+        bindOK H E3. destruct a as [ns' st3]. inversion H; subst; clear H.
+        destruct (child_fwd _ _ _ _ _ _ _ _ _ _ Hf Hinv (leaf_ok_var f _ Hc) E1 E2)
+          as (_ & Ha & Hadv & Hsd).
+        pose proof (rinv_adv _ _ _ _ _ Hinv Hadv) as Hinv2.
+        destruct (IH HF' _ _ _ _ _ Hinv2 Hsc Hso Hle' E3) as (I1 & I2 & I3).
+        destruct Hinv as ((_ & HF0) & _). rewrite (avail_adv _ _ _ _ HF0 Hadv) in I1.
+        split; [lia|].
+        split; [apply (adv_eq _ _ ((o' - off) + (scope - o'))); [lia|]; eapply adv_trans; eassumption|].
+        pose proof (slice_len_ge st (d_chain d) (o' - off) (scope - off) Ha ltac:(lia)) as Hl.
+        destruct (N.ltb_spec (lenN (slice st (scope - off))) (o' - off)); [lia|].
+        rewrite slice_firstn by lia. rewrite Hsd. cbn [obind].
+        rewrite (slice_skipn _ _ _ _ _ Hadv).
+        replace (scope - off - (o' - off)) with (scope - o') by lia. rewrite I3. reflexivity.
+Qed.
+
+Lemma cont_var_bwd : forall fs cfs, cf_shape fs cfs -> Forall sim_ty fs ->
+  forall scope st d ns, rinv st d -> scope < two32 ->
+  cf_sorted cfs -> Forall (fun o => o <= scope) (cf_offs cfs) ->
+  cf_tot scope cfs <= dr_scope d -> cf_tot scope cfs <= avail st (d_chain d) ->
+  s_cont_var (combine cfs (map sdc fs)) scope (slice st (cf_tot scope cfs)) = Some ns ->
+  exists st', deser_cont_var (combine cfs (map vdec fs)) scope st d = OK (ns, st').
+Proof.
+  induction 1 as [|f c fs cfs Hc Hsh IH]; intros HF scope st d ns Hinv Hsc Hso Hle Hds Ha H.
+  - cbn [map combine s_cont_var] in H. inversion H; subst. eexists; reflexivity.
+  - pose proof (Forall_inv HF) as [Hf Hb]. pose proof (Forall_inv_tail HF) as HF'.
+    cbn [map combine] in H |- *. destruct c as [n|off].
+    + cbn [s_cont_var] in H. obindS H E. inversion H; subst; clear H.
+      unfold cf_tot, cf_sorted in *. cbn [cf_offs] in *.
+      destruct (IH HF' _ _ _ _ Hinv Hsc Hso Hle Hds Ha E) as (st1 & E1).
+      exists st1. cbn [deser_cont_var]. rewrite E1. reflexivity.
+    + rewrite deser_cont_var_cvar.
+      pose proof (cf_shape_length _ _ Hsh) as Hlen.
+      rewrite cf_next_offs by (rewrite map_length; exact Hlen).
+      cbn [s_cont_var] in H. rewrite cf_next_offs in H by (rewrite map_length; exact Hlen).
+      unfold cf_tot, cf_sorted in *. cbn [cf_offs] in *. cbn [cf_shape1] in Hc.
+      pose proof (Forall_inv Hle) as Hoff. cbv beta in Hoff. pose proof (Forall_inv_tail Hle) as Hle'.
+      rewrite (slice_len st (d_chain d) _ Ha) in H.
+      destruct (cf_offs cfs) as [|o' r] eqn:Eoffs.
+      * rewrite wrap32_small, sub32_small by lia.
+        destruct (N.ltb_spec (scope - off) (scope - off)); [lia|].
+        rewrite slice_firstn in H by lia. obindS H E1. obindS H E2.
+        inversion H; subst; clear H.
+        destruct (child_bwd _ _ _ _ _ _ _ Hb Hinv (leaf_ok_var f _ Hc) Hds Ha E1)
+          as (Es & st2 & Ed).
+        destruct (child_fwd _ _ _ _ _ _ _ _ _ _ Hf Hinv (leaf_ok_var f _ Hc) Es Ed)
+          as (_ & _ & Hadv & _).
+        pose proof (rinv_adv _ _ _ _ _ Hinv Hadv) as Hinv2.
+        rewrite (slice_skipn _ _ _ _ _ Hadv), N.sub_diag in E2.
+        destruct (IH HF' scope st2 d l Hinv2 Hsc I Hle') as (st3 & E3); [lia|lia|exact E2|].
+        exists st3. rewrite Es. cbn [bind]. rewrite Ed. cbn [bind]. rewrite E3. reflexivity.
+      * destruct Hso as [Hoo' Hso]. pose proof (Forall_inv Hle') as Ho'. cbv beta in Ho'.
+        rewrite sub32_small by lia.
+        destruct (N.ltb_spec (scope - off) (o' - off)); [discriminate H|].
+        rewrite slice_firstn in H by lia. obindS H E1. obindS H E2.
+        inversion H; subst; clear H.
+        destruct (child_bwd _ _ _ _ _ _ _ Hb Hinv (leaf_ok_var f (o' - off) Hc)
+                            ltac:(lia) ltac:(lia) E1) as (Es & st2 & Ed).
+        destruct (child_fwd _ _ _ _ _ _ _ _ _ _ Hf Hinv (leaf_ok_var f _ Hc) Es Ed)
+          as (_ & _ & Hadv & _).
+        pose proof (rinv_adv _ _ _ _ _ Hinv Hadv) as Hinv2.
+        rewrite (slice_skipn _ _ _ _ _ Hadv) in E2.
+        replace (scope - off - (o' - off)) with (scope - o') in E2 by lia.
+        destruct (IH HF' scope st2 d l Hinv2 Hsc Hso Hle') as (st3 & E3); [lia| |exact E2|].
+        { destruct Hinv as ((_ & HF0) & _). rewrite (avail_adv _ _ _ _ HF0 Hadv). lia. }
+        exists st3. rewrite Es. cbn [bind]. rewrite Ed. cbn [bind]. rewrite E3. reflexivity.
+Qed.
+
+(* ---- single types ---- *)
+Ltac ifErr H :=
+  match type of H with
+  | (if ?c then Err else _) = OK _ => destruct c eqn:?; [discriminate H|]
+  | (if ?c then None else _) = Some _ => destruct c eqn:?; [discriminate H|]
+  end.
+
+Lemma r2o_some {A} (r : res A) a : r2o r = Some a -> r = OK a.
+Proof. destruct r; cbn; intros H; inversion H; reflexivity. Qed.
+
+Lemma sim_uint w : sim_ty (TUint w).
+Proof.
+  split.
+  - intros st d n st' Hinv Hok H. cbn [leaf_ok] in Hok. rewrite Hok. cbn [view_deser] in H.
+    destruct (uint_width_ok w) eqn:Hw; [|discriminate H].
+    bindOK H E. destruct a as [[bs st1] d1]. injection H as <- <-.
+    destruct (read_fwd _ _ _ _ _ _ Hinv E) as (R1 & R2 & R3 & R4 & _).
+    split; [exact R2|]. split; [exact R4|]. cbn [sdec]. rewrite Hw.
+    rewrite (slice_len _ _ _ R2), N.eqb_refl, R3. reflexivity.
+  - intros st d n Hinv Hok Ha H. cbn [leaf_ok] in Hok. rewrite Hok in H, Ha. cbn [sdec] in H.
+    destruct (uint_width_ok w) eqn:Hw; [|discriminate H].
+    rewrite (slice_len _ _ _ Ha), N.eqb_refl in H. injection H as <-.
+    destruct (dr_read_bwd st d w Hinv ltac:(lia) Ha) as (st' & d' & E).
+    exists st'. cbn [view_deser]. rewrite Hw. unfold slice. rewrite E. reflexivity.
+Qed.
+
+Lemma sim_bool : sim_ty TBool.
+Proof.
+  split.
+  - intros st d n st' Hinv Hok H. cbn [leaf_ok] in Hok. rewrite Hok. cbn [view_deser] in H.
+    bindOK H E. destruct a as [[b st1] d1]. ifErr H. injection H as <- <-.
+    destruct (read_byte_fwd _ _ _ _ _ Hinv E) as (R1 & R2 & R3 & R4 & _).
+    split; [exact R2|]. split; [exact R4|]. cbn [sdec].
+    rewrite (slice_len _ _ _ R2). cbn [N.eqb Pos.eqb negb]. rewrite <- R3, Heqb0. reflexivity.
+  - intros st d n Hinv Hok Ha H. cbn [leaf_ok] in Hok. rewrite Hok in H, Ha. cbn [sdec] in H.
+    rewrite (slice_len _ _ _ Ha) in H. cbn [N.eqb Pos.eqb negb] in H. ifErr H.
+    injection H as <-.
+    destruct (read_byte_bwd st d Hinv ltac:(lia) Ha) as (st' & d' & E).
+    exists st'. cbn [view_deser]. rewrite E. cbn [bind]. rewrite Heqb. reflexivity.
+Qed.
+
+Lemma sim_bytes k : sim_ty (TBytes k).
+Proof.
+  split.
+  - intros st d n st' Hinv Hok H. cbn [leaf_ok] in Hok. rewrite Hok. cbn [view_deser] in H.
+    bindOK H E. destruct a as [[bs st1] d1]. injection H as <- <-.
+    destruct (read_fwd _ _ _ _ _ _ Hinv E) as (R1 & R2 & R3 & R4 & _).
+    split; [exact R2|]. split; [exact R4|]. cbn [sdec].
+    rewrite (slice_len _ _ _ R2), N.eqb_refl, R3. reflexivity.
+  - intros st d n Hinv Hok Ha H. cbn [leaf_ok] in Hok. rewrite Hok in H, Ha. cbn [sdec] in H.
+    rewrite (slice_len _ _ _ Ha), N.eqb_refl in H. injection H as <-.
+    destruct (dr_read_bwd st d k Hinv ltac:(lia) Ha) as (st' & d' & E).
+    exists st'. cbn [view_deser]. unfold slice. rewrite E. reflexivity.
+Qed.
+
+Lemma sim_root : sim_ty TRoot.
+Proof.
+  split.
+  - intros st d n st' Hinv Hok H. cbn [leaf_ok] in Hok. rewrite Hok. cbn [view_deser] in H.
+    bindOK H E. destruct a as [[bs st1] d1]. injection H as <- <-.
+    destruct (read_fwd _ _ _ _ _ _ Hinv E) as (R1 & R2 & R3 & R4 & _).
+    split; [exact R2|]. split; [exact R4|]. cbn [sdec].
+    rewrite (slice_len _ _ _ R2), N.eqb_refl, R3. reflexivity.
+  - intros st d n Hinv Hok Ha H. cbn [leaf_ok] in Hok. rewrite Hok in H, Ha. cbn [sdec] in H.
+    rewrite (slice_len _ _ _ Ha), N.eqb_refl in H. injection H as <-.
+    destruct (dr_read_bwd st d 32 Hinv ltac:(lia) Ha) as (st' & d' & E).
+    exists st'. cbn [view_deser]. unfold slice. rewrite E. reflexivity.
+Qed.
+
+Lemma sim_bitvector k : sim_ty (TBitvector k).
+Proof.
+  split.
+  - intros st d n st' Hinv _ H. cbn [view_deser] in H. ifErr H.
+    bindOK H E. destruct a as [[bs st1] d1]. ifErr H. bindOK H E2.
+    injection H as <- <-.
+    destruct (read_fwd _ _ _ _ _ _ Hinv E) as (R1 & R2 & R3 & R4 & _).
+    split; [exact R2|]. split; [exact R4|]. cbn [sdec].
+    rewrite (slice_len _ _ _ R2), <- R3, Heqb, Heqb0, E2. reflexivity.
+  - intros st d n Hinv _ Ha H. cbn [sdec] in H.
+    rewrite (slice_len _ _ _ Ha) in H. ifErr H. ifErr H. apply r2o_some in H.
+    destruct (dr_read_bwd st d (dr_scope d) Hinv ltac:(lia) Ha) as (st' & d' & E).
+    exists st'. cbn [view_deser]. rewrite Heqb, E. cbn [bind]. fold (slice st (dr_scope d)).
+    rewrite Heqb0, H. reflexivity.
+Qed.
+
+Lemma sim_bitlist k : sim_ty (TBitlist k).
+Proof.
+  split.
+  - intros st d n st' Hinv _ H. cbn [view_deser] in H. ifErr H. ifErr H.
+    bindOK H E. destruct a as [[bs st1] d1]. ifErr H.
+    destruct (read_fwd _ _ _ _ _ _ Hinv E) as (R1 & R2 & R3 & R4 & _).
+    split; [exact R2|]. split; [exact R4|]. cbn [sdec].
+    rewrite (slice_len _ _ _ R2), <- R3, Heqb, Heqb0, Heqb1.
+    destruct ((dr_scope d =? 1) && (N_of_byte (last bs b0) =? 1)).
+    + bindOK H E2. injection H as <- <-. rewrite E2. reflexivity.
+    + ifErr H. bindOK H E2. injection H as <- <-. rewrite E2. reflexivity.
+  - intros st d n Hinv _ Ha H. cbn [sdec] in H.
+    rewrite (slice_len _ _ _ Ha) in H. ifErr H. ifErr H. ifErr H.
+    destruct (dr_read_bwd st d (dr_scope d) Hinv ltac:(lia) Ha) as (st' & d' & E).
+    exists st'. cbn [view_deser]. rewrite Heqb, Heqb0, E. cbn [bind].
+    fold (slice st (dr_scope d)). rewrite Heqb1.
+    destruct ((dr_scope d =? 1) && (N_of_byte (last (slice st (dr_scope d)) b0) =? 1)).
+    + apply r2o_some in H. rewrite H. reflexivity.
+    + ifErr H. obindS H E2. apply r2o_some in E2. injection H as <-.
+      rewrite E2. reflexivity.
+Qed.
